@@ -238,7 +238,16 @@ func mintTableCheck(c *Ctx, r *Report) {
 	for _, ci := range findCalls(mt, "pegnet.Pegnet.AddToBalance") {
 		args := ci.Common().Args
 		bo, ok := args[4].(*ssa.BinOp)
-		if ok && valuePath(bo.X) == "tokenSupply.Amount" && valuePath(args[3]) == "tokenSupply.Ticker" {
+		// by the declaring type, not by the name of the loop variable: Amount and Ticker of the same MintSupply element
+		sameElem := false
+		if ok {
+			ra, rt := elemRoots(bo.X), elemRoots(args[3])
+			sameElem = len(ra) > 0 && len(rt) > 0 && ra[0] == rt[0]
+			if !sameElem {
+				sameElem = valuePath(bo.X) != "" && strings.TrimSuffix(valuePath(bo.X), ".Amount") == strings.TrimSuffix(valuePath(args[3]), ".Ticker")
+			}
+		}
+		if ok && sameElem && typePath(bo.X) == "node.MintSupply.Amount" && typePath(args[3]) == "node.MintSupply.Ticker" {
 			if k, ok := bo.Y.(*ssa.Const); ok && k.Uint64() == 100000000 {
 				okk = true
 			}
